@@ -492,6 +492,11 @@ func (a String) M__mod__(other Object) (Object, error) {
 	params := make([]interface{}, len(values))
 	for i := range values {
 		params[i] = values[i]
+		if d, ok := values[i].(StringDict); ok {
+			// format a dict from its repr: fmt would walk the map
+			// itself, for ever if the dict contains itself
+			params[i] = d.String()
+		}
 	}
 	s := string(a)
 	s = strings.Replace(s, "%s", "%v", -1)
